@@ -367,6 +367,8 @@ import engprog
 import clieng
 import formeng
 import probeeng
+import deteng
+eng_determinism = deteng.eng_determinism
 eng_copyprobe = probeeng.eng_copyprobe
 eng_valuetable = probeeng.eng_valuetable
 eng_copydecls = probeeng.eng_copydecls
@@ -404,6 +406,9 @@ PROPS = {
     "C15": {"theorems": ["C15_copy_identity", "C15_missing_field_is_lost"], "engines": [eng_copyprobe, eng_copydecls],
             "assumptions": ["partial: the capture-avoiding renaming of rewritePkgRefs is exercised by the declaration corpus (structure + behaviour), not modelled in Coq",
                             "go/printer prints what copyAST returns; not modelled"]},
+    "C16": {"theorems": ["C16_collision_order_independent", "C10_phase_order_independent", "C07_cycles_detected"], "engines": [eng_determinism],
+            "assumptions": ["partial: loader behaviour across layouts is the go tool's and go/packages' runtime behaviour; the model cannot exhibit it, the runs sample it",
+                            "sorting of the import blocks (sort.Strings) is compared between runs, not modelled"]},
     "C17": {"theorems": ["C17_gen_exit", "C17_gen_footprint", "C17_failed_package_untouched", "C17_failure_does_not_block_others", "C17_diff_readonly", "C17_diff_exit"],
             "engines": [eng_cli], "assumptions": ["partial: OS write semantics are modelled as whole-file replace, tied by before/after tree hashes", "per-package Generate results are inputs of the command model"]},
     "C18": {"theorems": ["C18_history_independent", "C18_failed_gen_untouched", "C17_diff_readonly"], "engines": [eng_cli],
